@@ -3,12 +3,13 @@ SPECIFICATION Spec
 CONSTANTS
   Wnd = 3
   Variant = "fixed"
+  LastSlot = "pendingAck"
   MaxSdu = 3
   SegChoices = {1, 3}
   MaxSeq = 7
   MaxOps = 60
   Hostile = FALSE
 VIEW view
-INVARIANTS Refines NoPanic WindowRespected
+INVARIANTS Refines NoPanic WindowRespected NoDeadEnd
 CONSTRAINT SeqBound
 CHECK_DEADLOCK FALSE
